@@ -59,33 +59,47 @@ Proof. unfold merc_encode234. destruct (ver =? 2); cbn [fs2 fs34 enc_fs flat_map
 
 Ltac fs_ok := repeat (apply Forall_cons; [cbn [fspec_ok]; unfold field_ok; first [split; [lia|]; first [apply b2z_range | apply u64w_range | assumption | lia] | idtac]|]); try apply Forall_nil.
 
+Ltac in_list' := cbn [In]; repeat (first [left; reflexivity | right]).
+Ltac lv_in Hnd := apply last_varint_in; [exact Hnd | in_list'].
+Ltac lb_in Hnd := apply last_bytes_in; [exact Hnd | in_list'].
+
+Lemma fs2_fields m : let l := raw_fs (fs2 m) in
+  last_varint 1 l = mo_ts m /\ last_bytes 2 l = mo_bm m /\ last_varint 3 l = b2z (mo_prices_valid m) /\
+  last_varint 4 l = u64w (mo_mfts m) /\ last_varint 5 l = b2z (mo_mfts_valid m) /\ last_bytes 6 l = mo_link m /\
+  last_varint 7 l = b2z (mo_link_valid m) /\ last_bytes 8 l = mo_native m /\ last_varint 9 l = b2z (mo_native_valid m).
+Proof.
+  assert (Hnd : List.NoDup (map fkey (fs2 m))) by (unfold fs2; nodup_keys).
+  cbv zeta. unfold fs2 in *. repeat split; first [lv_in Hnd | lb_in Hnd].
+Qed.
+Lemma fs34_fields m : let l := raw_fs (fs34 m) in
+  last_varint 1 l = mo_ts m /\ last_bytes 2 l = mo_bm m /\ last_bytes 3 l = mo_bid m /\ last_bytes 4 l = mo_ask m /\
+  last_varint 5 l = b2z (mo_prices_valid m) /\ last_varint 6 l = u64w (mo_mfts m) /\ last_varint 7 l = b2z (mo_mfts_valid m) /\
+  last_bytes 8 l = mo_link m /\ last_varint 9 l = b2z (mo_link_valid m) /\ last_bytes 10 l = mo_native m /\
+  last_varint 11 l = b2z (mo_native_valid m) /\ last_varint 12 l = mo_status m /\ last_varint 13 l = b2z (mo_status_valid m).
+Proof.
+  assert (Hnd : List.NoDup (map fkey (fs34 m))) by (unfold fs34; nodup_keys).
+  cbv zeta. unfold fs34 in *. repeat split; first [lv_in Hnd | lb_in Hnd].
+Qed.
+
 Theorem merc_roundtrip234 ver m : ver = 2 \/ ver = 3 \/ ver = 4 -> mobs_wf ver m ->
   merc_decode234 ver (merc_encode234 ver m) = Some m.
 Proof.
   intros Hv (Hts & Hmf & Hst & Hb1 & Hb2 & Hb3 & Hb4 & Hb5 & H3 & H4).
   rewrite merc_encode234_fs. unfold merc_decode234. unfold blen_ok in *.
-  destruct m as [ts pv bm bid ask mfv mf lv link nv native sv st]. cbn [mo_ts mo_prices_valid mo_bm mo_bid mo_ask mo_mfts_valid mo_mfts mo_link_valid mo_link mo_native_valid mo_native mo_status_valid mo_status] in *.
   destruct (ver =? 2) eqn:E2.
-  - assert (ver = 2) by lia. subst ver. destruct H3 as [-> ->]; [lia|]. destruct H4 as [-> ->]; [lia|].
-    rewrite parse_enc_fs.
-    2:{ unfold fs2. cbn [mo_ts mo_prices_valid mo_bm mo_mfts_valid mo_mfts mo_link_valid mo_link mo_native_valid mo_native]. fs_ok. }
-    unfold fs2. cbn [mo_ts mo_prices_valid mo_bm mo_mfts_valid mo_mfts mo_link_valid mo_link mo_native_valid mo_native].
-    repeat match goal with
-    | |- context [last_varint ?k (raw_fs ?l)] => erewrite (last_varint_in k _ l) by first [nodup_keys | in_list]
-    | |- context [last_bytes ?k (raw_fs ?l)] => erewrite (last_bytes_in k _ l) by first [nodup_keys | in_list]
-    end.
-    rewrite !vbool_b2z, i64_u64w, u32w_small by lia. reflexivity.
-  - rewrite parse_enc_fs.
-    2:{ unfold fs34. cbn [mo_ts mo_prices_valid mo_bm mo_bid mo_ask mo_mfts_valid mo_mfts mo_link_valid mo_link mo_native_valid mo_native mo_status_valid mo_status]. fs_ok. }
-    unfold fs34. cbn [mo_ts mo_prices_valid mo_bm mo_bid mo_ask mo_mfts_valid mo_mfts mo_link_valid mo_link mo_native_valid mo_native mo_status_valid mo_status].
-    repeat match goal with
-    | |- context [last_varint ?k (raw_fs ?l)] => erewrite (last_varint_in k _ l) by first [nodup_keys | in_list]
-    | |- context [last_bytes ?k (raw_fs ?l)] => erewrite (last_bytes_in k _ l) by first [nodup_keys | in_list]
-    end.
+  - assert (ver = 2) by lia. subst ver. destruct H3 as [Hbid Hask]; [lia|]. destruct H4 as [Hs0 Hsv]; [lia|].
+    rewrite parse_enc_fs. 2:{ unfold fs2. fs_ok. }
+    destruct (fs2_fields m) as (F1 & F2 & F3 & F4 & F5 & F6 & F7 & F8 & F9). cbv zeta in *.
+    rewrite F1, F2, F3, F4, F5, F6, F7, F8, F9.
+    rewrite !vbool_b2z, i64_u64w, u32w_small by lia.
+    destruct m; cbn in *; subst; reflexivity.
+  - rewrite parse_enc_fs. 2:{ unfold fs34. fs_ok. }
+    destruct (fs34_fields m) as (F1 & F2 & F3 & F4 & F5 & F6 & F7 & F8 & F9 & F10 & F11 & F12 & F13). cbv zeta in *.
+    rewrite F1, F2, F5, F6, F7, F8, F9, F10, F11, ?F3, ?F4, ?F12, ?F13.
     rewrite !vbool_b2z, i64_u64w, !u32w_small by lia.
     destruct (ver =? 3) eqn:E3.
-    + assert (ver = 3) by lia. subst ver. destruct H4 as [-> ->]; [lia|]. reflexivity.
-    + assert (ver = 4) by lia. subst ver. destruct H3 as [-> ->]; [lia|]. reflexivity.
+    + assert (ver = 3) by lia. subst ver. destruct H4 as [Hs0 Hsv]; [lia|]. destruct m; cbn in *; subst; reflexivity.
+    + assert (ver = 4) by lia. subst ver. destruct H3 as [Hbid Hask]; [lia|]. destruct m; cbn in *; subst; reflexivity.
 Qed.
 
 (* ---- v1 ---- *)
@@ -104,9 +118,10 @@ Proof.
   intros (Hn & Ht & Hh & _). unfold blen_ok in Hh. rewrite block_encode_fs. unfold merc_block. destruct b as [n h t]. cbn [bnum bhash bts] in *.
   rewrite parse_enc_fs. 2:{ unfold fsb. cbn [bnum bhash bts]. fs_ok. }
   unfold fsb. cbn [bnum bhash bts].
+  match goal with |- context [raw_fs ?l] => assert (Hnd : List.NoDup (map fkey l)) by nodup_keys end.
   repeat match goal with
-  | |- context [last_varint ?k (raw_fs ?l)] => erewrite (last_varint_in k _ l) by first [nodup_keys | in_list]
-  | |- context [last_bytes ?k (raw_fs ?l)] => erewrite (last_bytes_in k _ l) by first [nodup_keys | in_list]
+  | |- context [last_varint ?k (raw_fs ?l)] => erewrite (last_varint_in k _ l Hnd) by in_list
+  | |- context [last_bytes ?k (raw_fs ?l)] => erewrite (last_bytes_in k _ l Hnd) by in_list
   end.
   rewrite i64_u64w by lia. reflexivity.
 Qed.
@@ -149,9 +164,10 @@ Proof.
   rewrite blocks_roundtrip by exact Hbl.
   rewrite !last_varint_app_nokey, !last_bytes_app_nokey by (apply Hrep; lia).
   unfold fs1. cbn [m1_ts m1_prices_valid m1_bm m1_bid m1_ask m1_cur_valid m1_cur m1_mfb_valid m1_mfb bnum bhash bts].
+  match goal with |- context [raw_fs ?l] => assert (Hnd : List.NoDup (map fkey l)) by nodup_keys end.
   repeat match goal with
-  | |- context [last_varint ?k (raw_fs ?l)] => erewrite (last_varint_in k _ l) by first [nodup_keys | in_list]
-  | |- context [last_bytes ?k (raw_fs ?l)] => erewrite (last_bytes_in k _ l) by first [nodup_keys | in_list]
+  | |- context [last_varint ?k (raw_fs ?l)] => erewrite (last_varint_in k _ l Hnd) by in_list
+  | |- context [last_bytes ?k (raw_fs ?l)] => erewrite (last_bytes_in k _ l Hnd) by in_list
   end.
   rewrite !vbool_b2z, !i64_u64w, u32w_small by lia. reflexivity.
 Qed.
